@@ -62,6 +62,9 @@ func _roll64(src *rand.PCGSource, dicePoints int64, mod int) int64 {
 }
 
 func Roll(src *rand.PCGSource, dicePoints IntType, mod int) IntType {
+	if v, ok := verifRoll(src, dicePoints, &mod); ok {
+		return v
+	}
 	if dicePoints == 0 {
 		return 0
 	}
